@@ -604,10 +604,36 @@ PROPS["C13"] = dict(family="vars", level="model_checking", design_ref="4.4",
                     text="Resolve/Expected are the specification of substitution; TLC checks the twin statement on the model and the model against the compiler.", note="Trusted: TLC, Json module, the program writer in harness/cmd/vdrive/vars.go.")
 
 
+# ---------------------------------------------------------------------------------- boards (C15)
+def corrupt_boards(lines, pid):
+    for e in lines:
+        if e.get("ev") == "prog" and e.get("err") == 0:
+            for b in e["boards"]:
+                if b["kind"] in ("scenario", "step") and b["found"] == 1 and b["obs"]["objs"]:
+                    b["obs"]["objs"].pop()
+                    return "last object of an inheriting board dropped"
+    return None
+
+
+FAMILIES["boards"] = dict(vdrive="boards", trace_module="TraceD2Boards", trace_cfg="TraceD2Boards.cfg", corrupt=corrupt_boards, engine="TraceD2Boards", args={"alphabet": _os.path.join(_SPECS, "ir_alphabet.json"), "n": "1000"}, chunk=1500, heap="4g")
+PROPS["C15"] = dict(family="boards", level="model_checking", design_ref="4.4",
+                    technique="TLA+ inheritance rule (Derive: which declarations make up a root / layer / scenario / step) on top of D2IR's Apply, whose declaration semantics TLC model checks in the ir family; TLC folds Apply over the derived sequence of every board and compares with the real compiler's projection of that board",
+                    base=dict(quick=[dict(module="D2IR", cfg="D2IR_quick.cfg", workers=8)], thorough=[dict(module="D2IR", cfg="D2IR_quick.cfg", workers=8)]),
+                    rule=("the program space is FIXED (program #i from seed i, 8,000 programs; quick takes the 1,000 VERIF_SEED selects): a root board with 2-6 declarations from the 33 usable declarations of specs/ir_alphabet.json "
+                          "(objects at depth 1-2 in three casings, labels, shapes, style attributes, attribute and object null, connections incl. self loops and parallel ones, indexed connection references) in six syntactic variants; "
+                          "with probability 0.6 each a layers, scenarios and steps block of 1-3 boards placed before, between or after the declarations; boards of depth 1 carry 0-3 declarations and, with probability 0.35 each, nested blocks. "
+                          "Non-trivial: the program has at least one nested board."),
+                    exhaustive=dict(quick=True, thorough=True),
+                    assumptions=["classes, variables and board-wide globs (what a layer may still use from its base) are not part of the alphabet", "explicit label fields (KF-C10-1), indexed deletions and globs are left out of the alphabet: their deviations are recorded by the ir family",
+                                 "a program in which some board refers to a connection index it does not have must be rejected as a whole"],
+                    text="Derive is the specification of inheritance; board isolation follows from deriving every board from declarations only.", note="Trusted: TLC, Json module, the program writer in harness/cmd/vdrive/boards.go, the projection.")
+
+
 # ------------------------------------------------------------------------------- manifest data
 HOOK_COMMITS = ["9d004ebd4", "879b5d739"]
 
 ENGINES = {
+    "TraceD2Boards": dict(path="specs/D2IR.tla, specs/TraceD2Boards.tla, specs/ir_alphabet.json", kind="TLA+ inheritance rule for layers/scenarios/steps over the D2IR reference interpreter; TLC derives and folds the declarations of every board and compares with the real compiler's boards"),
     "TraceD2Vars": dict(path="specs/D2Vars.tla, specs/TraceD2Vars.tla", kind="TLA+ model of scoped variable resolution and substitution (TLC: all 3-scope programs) + TLC comparison of the model with the real compiler on generated programs and their textually substituted twins"),
     "TraceD2Quote": dict(path="specs/TraceD2Quote.tla", kind="TLA+ statements of the quoting round trip (identity on code-point sequences) and of IDs as keys of a board, evaluated by TLC on the real writer/parser/compiler results"),
     "TraceD2Attrs": dict(path="specs/TraceD2Attrs.tla, specs/attr_domains.json", kind="TLA+ domain table of attribute values (InDomain) evaluated by TLC on the accept/reject verdicts and compiled values of the real compiler"),
